@@ -161,7 +161,7 @@ class Gen:
             return ["try", body, cb, fb]
         if k < 62:
             kind = "for" if r.chance(0.6) else "while"
-            if ctx["fin_level"] > 0 and kind == "for" and not self.f.get("finally_local"):
+            if ctx["fin_level"] > 0 and kind == "for" and not self.f.get("finally_local") and not self.k.get("finally_locals"):
                 kind = "while"
             c_l = dict(ctx)
             c_l.update(loop=True, l_try=0, l_locals=0, l_catchfin=False, l_fin=0)
@@ -204,8 +204,8 @@ class Gen:
             if r.chance(0.3):
                 return ["failop", self.id(), r.choice([1, 2, 3, 4, 5, 6, 7, 8, 11, 12])]
             return ["throw", self.id(), r.choice(["s", "s", "n", "i", "t"])]
-        if k < 91:
-            if ctx["fin_level"] > 0 and not self.f.get("finally_local"):
+        if k < 90:
+            if ctx["fin_level"] > 0 and not self.f.get("finally_local") and not self.k.get("finally_locals"):
                 return self.simple(ctx)
             v = self.id()
             c_b = dict(ctx)
@@ -217,7 +217,7 @@ class Gen:
                 self.clocal_ids.append((v, self.cur_mod))
             inner = self.block(depth + 1, c_b, budget)
             return ["clocal" if captured else "local", v, inner]
-        if k < 96:
+        if k < 100 - K["p_brk"]:
             return self.ret(ctx)
         return self.brk(ctx)
 
@@ -264,6 +264,10 @@ def gen_nest(seed, feats=None):
         "p_rethrow": rng.choice([0.0, 0.15, 0.3]),
         "max_funcs": rng.range(0, 4),
         "p_module": rng.choice([0.0, 0.3, 0.6]),
+        # variables declared inside finally blocks (K-finally-local only bites when the block is entered by an exception:
+        # the model taints exactly those entries)
+        "finally_locals": rng.chance(0.5),
+        "p_brk": rng.choice([4, 8, 14]),
     }
     g = Gen(rng, feats, knobs)
     budget = [rng.range(8, 40)]
@@ -762,6 +766,8 @@ def model(ir, tape, faults):
             cur_ctx[0] = "finally"
             if isinstance(exc, Thrown):
                 probes.inc("finally_by:exception")
+                if declares_locals(fb):
+                    taint.add("K-finally-local")
                 pend_exc[0] += 1
                 try:
                     block(fb, dict(env, exc=None))
@@ -1050,6 +1056,22 @@ class C08:
                 "logical_time": {"events": stats.get("events_expected", 0), "plans": stats.get("plans", 0)},
                 "tainted_plans_not_compared": {k[len("tainted:"):]: v for k, v in stats.items() if k.startswith("tainted:")},
                 "distinct_plans_nontrivial": stats.get("distinct_plans_nontrivial", 0)}
+
+
+def declares_locals(block):
+    """does this block (recursively, without entering callees) declare a local variable or a catch variable?"""
+    for st in block:
+        k = st[0]
+        if k in ("local", "clocal"):
+            return True
+        if k == "loop" and st[1] == "for":
+            return True
+        if k == "try" and st[2] is not None:
+            return True
+        for bi in blocks_of(st):
+            if declares_locals(st[bi]):
+                return True
+    return False
 
 
 def blocks_of(st):
